@@ -36,6 +36,7 @@ static std::unique_ptr<Problem> gen_problem(ByteSource& s) {
   p->t_ini = tk == 0 ? 0.0 : tk == 1 ? 2 * s.dense() : tk == 2 ? 100 * (0.5 + s.unif01()) : tk == 3 ? (double)s.range(-5, 5) : 0.0;
   p->family = FAM_DIAGONAL; p->manufactured_scalar = false; p->g_timedep = false;
   gen_problem_coeffs(s, *p);
+  if (tk != 4 && s.tail_choose(3) == 1) p->f1 = 0;  // (tail byte) time-independent terms with an ordinary initial time: the clock is carried away from t_ini by free flights
   if (tk == 4) {
     // a clock far from zero (spacing of doubles at t up to 2.4e-4, comparable with the segments): the elapsed time is what counts. The
     // terms are made time independent here, so that the rounding of the absolute stage times cannot enter the comparison.
@@ -91,12 +92,19 @@ void run_case(ByteSource& s, CaseInfo& ci) {
       double dt = s.choose(5) == 0 ? 0.0 : 0.05 + 0.4 * s.unif01();
       if (stepper == 0 && !adaptive) dt = std::min(dt, 0.1);
       unsigned eff = any ? mask : 0;
+      // (tail bytes) two more interval classes for problems with time-independent terms: a very short interval - below the spacing of
+      // doubles at a clock far from zero - and, while nothing is integrated, a long free flight that carries the clock far from t_ini
+      if (P->f1 == 0 && dt > 0) {
+        unsigned dk = s.tail_choose(6);
+        if (dk == 1) { dt = std::ldexp(1.0 + s.tail_u8() / 256.0, -(int)(8 + s.tail_choose(12))); ci.label("dt-tiny"); }
+        else if (dk == 2 && eff == 0) { dt = std::ldexp(1.0 + s.tail_u8() / 256.0, (int)(20 + s.tail_choose(14))); ci.label("free-flight"); }
+      }
       // snapshot for the bit-identity check
       std::vector<std::vector<double>> before;
       for (int ix = 0; ix < P->nx; ix++) { for (int ir = 0; ir < P->nr; ir++) before.push_back(comps(S->rho(ix, ir))); std::vector<double> sc; for (int is = 0; is < P->ns; is++) sc.push_back(S->scalar(ix, is)); before.push_back(sc); }
       long pd0 = S->log.prederive_calls;
       hist += fmt("Evolve(%.6g)%s ", dt, eff ? "" : "[no numerics]");
-      if (!adaptive) { nsteps = fixed_steps(stepper, std::max(dt, 1e-3)); S->Set_NumSteps(nsteps); }
+      if (!adaptive) { nsteps = fixed_steps(stepper, eff ? std::max(dt, 1e-3) : 1e-3); /* nothing is integrated during a free flight */ S->Set_NumSteps(nsteps); }
       if (!adaptive) T->Set_NumSteps(nsteps);
       // GSL rejects a *fixed* step whose error estimate exceeds the tolerances; with fixed stepping the accuracy comes from the
       // step count, so the tolerances are kept out of the way for the duration of the call
@@ -156,6 +164,7 @@ void run_case(ByteSource& s, CaseInfo& ci) {
       if (which == 0 || which == 2) { cur_rel = rels[s.choose(3)]; S->Set_rel_error(cur_rel); T->Set_rel_error(cur_rel); }
       if (which == 1 || which == 2) { cur_abs = abss[s.choose(3)]; S->Set_abs_error(cur_abs); T->Set_abs_error(cur_abs); }
       double hh = s.flag() ? 1e-4 : 1e-3; S->Set_h(hh); T->Set_h(hh);
+      { unsigned hk = s.tail_choose(3); double hm = hk == 1 ? 2e-3 : 0.05; S->Set_h_max(hm); T->Set_h_max(hm); if (hk == 1) ci.label("h_max-small"); }  // fixed stepping does not consult h_max
       hist += fmt("stepper=%s/%s rel=%g abs=%g ", STEPPER_NAMES[stepper], adaptive ? "adaptive" : "fixed", cur_rel, cur_abs); events_between++;
     } else if (op == 7) {  // move construction
       std::unique_ptr<TSolver> n(new TSolver(std::move(*S)));
